@@ -45,6 +45,7 @@ func run(c *vrt.Ctx) {
 		{"sampleuv", m.runSampleUV},
 		{"samplemv", m.runSampleMV},
 		{"history", m.runHistory},
+		{"nilsrc", m.runNilSrc},
 		{"docs", func() { a := m.newAcc(); m.runDocs(a); a.flush() }},
 	}
 	want := map[string]bool{}
